@@ -1763,39 +1763,43 @@ namespace bloch::runtime {
         // happens. For the same reason nothing from which such an object can be reached may be
         // swept - clearing the holder's fields would release the qubit owner on the spot.
         {
-            // The seeds are all such objects, reachable or not: garbage that refers to a *live* one
-            // is kept too - sweeping it would drop a reference to the live object, and whether it
-            // is later released by its last variable (destructor runs, qubits reset) or only found
-            // unreachable at the end would depend on when this collection ran. The same holds
-            // for garbage that reaches such an object through live plain objects, so the search
-            // goes through reachable objects as well.
+            // The search starts from all such objects and from every live object: garbage that
+            // refers to a live object is kept too. Sweeping it would drop a reference to the live
+            // object, and whether that object is later released by its last variable (destructor
+            // runs, qubits reset - of the object itself or of one it holds by then) or stays leaked
+            // with the cycle would depend on when this collection ran. Only garbage that reaches
+            // neither is reclaimed. The search follows references backwards with a work list, one
+            // visit per reference.
             std::unordered_set<const Object*> pinned;
-            for (auto& obj : objects)
-                if (releaseIsObservable(obj->cls))
+            std::vector<const Object*> work;
+            for (auto& obj : objects) {
+                if (obj->marked || releaseIsObservable(obj->cls)) {
                     pinned.insert(obj.get());
-            auto refersToPinned = [&](const Value& v) {
-                if (v.type == Value::Type::Object && v.objectValue)
-                    return pinned.count(v.objectValue.get()) > 0;
-                if (v.type == Value::Type::ObjectArray)
-                    for (const auto& o : v.objectArray)
-                        if (o && pinned.count(o.get()))
-                            return true;
-                return false;
-            };
-            bool changed = !pinned.empty();
-            while (changed) {
-                changed = false;
-                for (auto& obj : objects) {
-                    if (pinned.count(obj.get()))
-                        continue;
-                    for (const auto& f : obj->fields) {
-                        if (refersToPinned(f)) {
-                            pinned.insert(obj.get());
-                            changed = true;
-                            break;
-                        }
-                    }
+                    work.push_back(obj.get());
                 }
+            }
+            std::unordered_map<const Object*, std::vector<const Object*>> referrers;
+            for (auto& obj : objects) {
+                if (obj->marked)
+                    continue;  // already kept
+                for (const auto& f : obj->fields) {
+                    if (f.type == Value::Type::Object && f.objectValue)
+                        referrers[f.objectValue.get()].push_back(obj.get());
+                    else if (f.type == Value::Type::ObjectArray)
+                        for (const auto& o : f.objectArray)
+                            if (o)
+                                referrers[o.get()].push_back(obj.get());
+                }
+            }
+            while (!work.empty()) {
+                const Object* cur = work.back();
+                work.pop_back();
+                auto found = referrers.find(cur);
+                if (found == referrers.end())
+                    continue;
+                for (const Object* holder : found->second)
+                    if (pinned.insert(holder).second)
+                        work.push_back(holder);
             }
 #ifdef BLOCH_VERIF
             if (verifGcLog)
